@@ -79,7 +79,7 @@ def main():
                   "kind_free_text": "deterministic simulator: the real engine compiled against a shuttle-backed synchronisation seam, one seeded scheduler deciding every interleaving, fresh process-global state per simulated run, handler-level fault injection, reference-model / sequential-engine / linearizability oracles, minimising shrinker, replay files"}],
      "checks": checks,
      "not_applicable": [{"property_id": k, "reason": v} for k, v in sorted(na.items())],
-     "notes": "See DESIGN.md. Technique family: deterministic simulation with fault injection. KNOWN_FINDINGS.txt lists the recorded C13 finding (torn registration reads, templates T1-T4) and the defects repaired by fix: commits.",
+     "notes": "See DESIGN.md. Technique family: deterministic simulation with fault injection. KNOWN_FINDINGS.txt lists the recorded C13 finding (torn registration reads, templates T1-T4) and the defects repaired by fix: commits. The simulator is built optimised with overflow checks and debug assertions on (the run-time checks of the profile the repository's own suite runs under). If the checked tree uses std/core::sync::atomic, bin/check builds from a scratch copy of src/ in which atomics are routed through the simulator (the repository itself has no hook for them and is never modified). SENSITIVITY.md: 247 changes by independent sub-agents + 23 hand-written ones, which checks catch which; benign/: 48 behaviour-preserving refactorings, no alarm.",
     }
     json.dump(m, open(os.path.join(HERE, "MANIFEST.json"), "w"), indent=1)
     print("checks:", sorted(have))
